@@ -627,10 +627,25 @@ def repeated_site_in_tf(ctx):
 # ----------------------------------------------------------------------------------------------
 # whole simulations: <program>_<sim>_estimated_emissions.csv of the real simulator
 # ----------------------------------------------------------------------------------------------
-WR_FACTORS = [0.7, 0.3, 0.5, 0.75, 1.0, 0.185, 0.0, 1 / 3]
+# the boundary set of the factor (0, 1, small, 1/2, large) first, then non-dyadic ones; an odd number
+# of entries so that every factor meets both duration methods over the tiers
+WR_FACTORS = [0.0, 1 / 64, 1.0, 0.5, 63 / 64, 0.7, 0.001, 0.185, 1 / 3]
 COL_SITE, COL_EQG, COL_COMP = "Site ID", "Equipment", "Component"
 COL_START, COL_END, COL_RATE, COL_VOL = "Start Date", "End Date", '"Measured" Rate (g/s)', '"Estimated" Volume Emitted (Kg Methane)'
 COL_DATE = "Survey Completion Date"
+
+
+def long_surveys(cfg, rng):
+    """site surveys that cannot be finished on the day they are started (survey time above what is left
+    of a crew day after the first site): reports that live across simulated days"""
+    for name, m in cfg["methods"].items():
+        if m.get("deployment_type") == "mobile" and m.get("measurement_scale") == "component":
+            m["survey_time"] = rng.choice([300, 420]) if not m.get("is_follow_up") else 300
+            m["max_workday"] = 8
+            m["t_bw_sites"] = [30.0]
+            m["consider_daylight"] = False
+    cfg["_c13_long_surveys"] = True
+    return cfg
 
 
 def wholerun_configs(ctx, n):
@@ -638,65 +653,161 @@ def wholerun_configs(ctx, n):
     cfgs = []
     for i in range(n):
         mode = ["measurement-based", "component-based"][i % 2]
-        # the factor is written to the program parameter files unchanged (non-dyadic ones included)
+        # the factor is written to the program parameter files unchanged and reaches the report code
+        # through the real Program object; the oracle compares with THIS configured value
         cfg = WR.make_config(ctx.rng, duration_method=mode, duration_factor=WR_FACTORS[i % len(WR_FACTORS)],
                              n_sims=ctx.pick(1, 2), ndays=ctx.rng.choice([120, 200, 365]))
+        if i % 3 != 2:
+            long_surveys(cfg, ctx.rng)
         cfgs.append(cfg)
     return cfgs
 
 
+def _site_key(x):
+    x = str(x)
+    return x[:-2] if x.endswith(".0") else x
+
+
+def survey_log(res):
+    """(program, simulation) -> site -> sorted days on which a site survey was COMPLETED, observed at
+    Method.survey_site by the worker's wrapper (not the reports the program keeps)"""
+    log = {}
+    multi = 0
+    for t in res.trace:
+        per = log.setdefault((t["prog"], t["sim"]), {})
+        for ev in t["events"]:
+            if ev[0] != "survey":
+                continue
+            if ev[12]:
+                multi += 1          # returned with the survey still in progress
+            if ev[11]:
+                per.setdefault(_site_key(ev[3]), []).append(ev[1])
+    for per in log.values():
+        for k in per:
+            per[k].sort()
+    return log, multi
+
+
 def wholerun_groups(res, prog, sim, comp_mode):
-    """-> (dict key -> windows in file order, None) or (None, reason)"""
+    """-> (dict key -> windows in file order, list of rows without a window) or None"""
     rows = res.estimated(prog, sim)
     if rows is None:
         return None
     out = {}
+    windowless = []
     for r in rows:
-        key = (r[COL_SITE], r.get(COL_EQG, "") if comp_mode else "", r.get(COL_COMP, "") if comp_mode else "")
-        w = {"start": res.day_index(r[COL_START]), "stop": res.day_index(r[COL_END]),
-             "rate_num": float(r[COL_RATE]), "vol": float(r[COL_VOL])}
+        key = (_site_key(r[COL_SITE]), r.get(COL_EQG, "") if comp_mode else "", r.get(COL_COMP, "") if comp_mode else "")
+        try:
+            vol = float(r[COL_VOL]) if r[COL_VOL] != "" else float("nan")
+            rate = float(r[COL_RATE]) if r[COL_RATE] != "" else float("nan")
+        except ValueError:
+            vol = rate = float("nan")
+        w = {"start": res.day_index(r[COL_START]), "stop": res.day_index(r[COL_END]), "rate_num": rate, "vol": vol}
         if comp_mode and r.get(COL_DATE):
             w["date"] = res.day_index(r[COL_DATE])
+        if w["start"] is None or w["stop"] is None or vol != vol or rate != rate or (comp_mode and w.get("date") is None):
+            windowless.append((key, dict(r)))
+            out.setdefault(key, [])
+            continue
         out.setdefault(key, []).append(w)
-    return out
+    return out, windowless
 
 
 def oracle_wholerun(ctx, res):
-    """tiling / share / volume on every estimated_emissions.csv of one real run, the dates-in-period
-    hypothesis measured on the real survey stream, and the simulated-days reading"""
+    """every estimated_emissions.csv of one real run against (i) the survey log observed in the run:
+    every completed survey owns exactly one window that contains its completion date, no row without
+    a window; (ii) tiling / volume; (iii) the share of every interval given to the larger measurement
+    against the CONFIGURED factor; plus the dates-in-period hypothesis and the simulated-days reading"""
     cfg = res.cfg
     comp_mode = cfg["duration_method"] == "component-based"
-    f = float(cfg["duration_factor"])
+    mname = MODE_NAME[1 if comp_mode else 0]
+    f = float(cfg["duration_factor"])   # from the configuration, not from the Program object
     S, E = 0, res.ndays - 1
     inp_cfg = {"cfg": cfg}
-    # completed surveys of the real run (trace) and their days
-    for t in res.trace:
-        for ev in t["events"]:
-            if ev[0] == "survey" and ev[11]:
-                ctx.count("wholerun_completed_surveys")
-                if 0 <= ev[1] <= E:
-                    ctx.count("wholerun_completed_surveys_inside_period")
+    log, multi = survey_log(res)
+    ctx.count("wholerun_survey_steps_left_in_progress", multi)
+    if multi:
+        ctx.count("wholerun_configs_with_multi_day_surveys")
+    for per in log.values():
+        for days in per.values():
+            ctx.count("wholerun_completed_surveys", len(days))
+            ctx.count("wholerun_completed_surveys_inside_period", sum(1 for d in days if 0 <= d <= E))
     for prog in res.programs:
         for sim in range(res.n_sims):
-            groups = wholerun_groups(res, prog, sim, comp_mode)
-            if groups is None:
+            per = log.get((prog, sim), {})
+            got = wholerun_groups(res, prog, sim, comp_mode)
+            if got is None:
                 ctx.count("wholerun_program_sims_without_estimate_file")
+                if not comp_mode and per:
+                    ctx.violate("C13:wholerun:site:surveys-but-no-estimate-file",
+                                "sites were surveyed but the program wrote no estimated emissions file",
+                                dict(inp_cfg, program=prog, sim=sim, surveyed_sites=sorted(per)[:10]))
                 continue
+            groups, windowless = got
             ctx.count("wholerun_estimate_files")
+            where = dict(inp_cfg, program=prog, sim=sim)
+            if windowless:
+                ctx.violate(f"C13:wholerun:{mname}:measurement-without-window",
+                            "rows of the estimated emissions file have no Start/End Date (or a NaN rate / volume): "
+                            "a completed survey owns no estimation window",
+                            dict(where, n_rows=len(windowless), group=list(windowless[0][0]), row=windowless[0][1]))
+            if not comp_mode:
+                # every completed survey of the log owns exactly one window, which contains its date
+                for site in sorted(set(per) | {k[0] for k in groups}):
+                    days = per.get(site, [])
+                    ws = groups.get((site, "", ""))
+                    ctx.evaluations += 1
+                    if ws is None:
+                        ctx.violate("C13:wholerun:site:surveyed-site-without-windows",
+                                    "a site with completed surveys has no windows in the file", dict(where, group=[site], survey_days=days))
+                        continue
+                    n_here = len(ws) + sum(1 for k, _ in windowless if k[0] == site)
+                    if n_here != len(days) + 2:
+                        ctx.violate("C13:wholerun:site:surveys-and-windows-differ-in-number",
+                                    "the number of rows of a site is not 2 + the number of surveys completed at it",
+                                    dict(where, group=[site], survey_days=days, rows=n_here))
+                        continue
+                    if len(ws) == len(days) + 2:
+                        for w, d in zip(ws, sorted(days + [S, E])):
+                            w["date"] = d
+                        ctx.count("wholerun_windows_matched_with_the_survey_log", len(days))
+            else:
+                for key, ws in groups.items():
+                    days = set(per.get(key[0], [])) | {S, E}
+                    for w in ws:
+                        ctx.evaluations += 1
+                        if w["date"] not in days:
+                            ctx.violate("C13:wholerun:component:window-date-not-in-the-survey-log",
+                                        "a component's row carries a survey date on which no survey of the site was completed",
+                                        dict(where, group=list(key), date=w["date"], survey_days=sorted(days)))
+                            break
+                    else:
+                        ctx.count("wholerun_windows_matched_with_the_survey_log", max(0, len(ws) - 2))
+            for key, ws in groups.items():
+                for w in ws:
+                    if "date" in w and not (w["start"] <= w["date"] <= w["stop"]):
+                        ctx.violate(f"C13:wholerun:{mname}:window-does-not-contain-its-survey-date",
+                                    "a window does not contain the completion date of the survey it extrapolates",
+                                    dict(where, group=list(key), window=[w["start"], w["stop"]], date=w["date"]))
+                        break
             ts = res.timeseries(prog, sim)
             n_sim_days = len(ts) if ts is not None else None
             # key ids are strings here; oracle_table only needs them to be sortable
             case = (1 if comp_mode else 0, f, S, E, 1, [])
             nv = len(ctx.violations)
-            oracle_table(ctx, case, groups, origin=f"wholerun:{prog}:{sim}", check_cover=False)
+            oracle_table(ctx, case, {k: v for k, v in groups.items() if v}, origin=f"wholerun:{prog}:{sim}", check_cover=False)
             for v in ctx.violations[nv:]:
                 v["input"].update(inp_cfg)
             for key, ws in groups.items():
+                if not ws:
+                    continue
                 ctx.evaluations += 1
                 ctx.count("wholerun_groups")
                 if len(ws) > 2:
                     ctx.count("wholerun_groups_with_surveys")
                     ctx.nontrivial.add(("wholerun", cfg["duration_method"], f, tuple((w["start"], w["stop"]) for w in ws)))
+                    if all("date" in w for w in ws):
+                        ctx.count("wholerun_intervals_share_checked_against_configured_factor", len(ws) - 1)
                 for w in ws:
                     if "date" in w:
                         ctx.count("wholerun_report_dates")
